@@ -921,6 +921,20 @@ func (r *Run) havocModifies(env *SpecEnv, pre, st *State, m Expr, src string) {
 		}
 	}()
 	penv := env.inState(pre)
+	if r.writes != nil {
+		// during a loop probe: whatever a callee may modify is an unknown (non-fresh) target
+		before := map[string]string{}
+		for k, t := range st.heaps {
+			before[k] = t.S
+		}
+		defer func() {
+			for k, t := range st.heaps {
+				if before[k] != t.S {
+					r.noteWrite(k, "?")
+				}
+			}
+		}()
+	}
 	switch x := m.(type) {
 	case EUnary:
 		if x.Op == "*" {
